@@ -8,13 +8,13 @@
      - a quote is a node over the tree of its blocks; a list is a node over its items;
      - an item that starts with text (paragraph or heading) is a section node titled with that
        text over the tree of the remaining blocks; an empty item is nothing; an item that is just
-       a list is merged into the enclosing list.
+       a list is merged into the enclosing list; any other item (it starts with a code block,
+       quote, table or rule, or with a list that further blocks follow) is a section node without
+       text over the tree of ALL its blocks.
 
-   The specification is defined on every input but is only claimed (and compared with the
-   transliterated cursor machine of Arena.v and, through it, with the implementation, on every
-   run) for inputs in which no list item starts with a code block, quote, table or rule, or
-   starts with a list and holds further blocks ([plain_items], the classes F-LEADPANIC and
-   F-ITEMLEAD). *)
+   The specification is claimed for every input (it is compared with the transliterated cursor
+   machine of Arena.v and, through it, with the implementation, on every run; SectionsRefine.v
+   proves the machine refines it for every block list). *)
 From IweV Require Import Str Ast RelPath Arena.
 Local Open Scope string_scope.
 Local Open Scope list_scope.
@@ -89,8 +89,9 @@ Section Spec.
     | S f =>
         match it with
         | [] => []
-        | (DBList inner | DOList inner) :: _ => flat_map (item_tree f) inner   (* merged; body is empty on the claimed class *)
-        | h :: body => [T None (NSection (lead_inlines h)) (blocks_tree f body)]
+        | [DBList inner] | [DOList inner] => flat_map (item_tree f) inner      (* merged *)
+        | ((DPara _ _ | DHeader _ _ _) as h) :: body => [T None (NSection (lead_inlines h)) (blocks_tree f body)]
+        | _ => [T None (NSection []) (blocks_tree f it)]
         end
     end.
 
